@@ -1651,11 +1651,11 @@ func (vm *Thread) stackAddRaw(ptr uintptr, n uintptr) uintptr {
 }
 
 func (vm *Thread) stackOffsetFromTo(from *value.Value, to *value.Value) int {
-	return int(uintptr(unsafe.Pointer(from))-uintptr(unsafe.Pointer(to))) / int(value.ValueSize)
+	return int(uintptr(unsafe.Pointer(to))-uintptr(unsafe.Pointer(from))) / int(value.ValueSize)
 }
 
 func (vm *Thread) stackOffsetFromToRaw(from, to uintptr) int {
-	return int(from-to) / int(value.ValueSize)
+	return int(to-from) / int(value.ValueSize)
 }
 
 func (vm *Thread) fpOffset() int {
@@ -2270,23 +2270,17 @@ func (vm *Thread) growValueStack() {
 
 	for i := range vm.callFrames {
 		cf := &vm.callFrames[i]
-		offset := uintptr(vm.stackOffsetFromToRaw(oldStackPtr, cf.fp))
-		cf.fp = vm.stackAddRaw(newStackPtr, offset)
-		for _, upvalue := range cf.upvalues {
-			if upvalue.IsClosed() {
-				continue
-			}
-
-			offset := vm.stackOffsetFromTo(&vm.stack[0], upvalue.slot)
-			upvalue.slot = vm.stackAdd(&newStack[0], offset)
-		}
-	}
-
-	for _, upvalue := range vm.upvalues {
-		if upvalue.IsClosed() {
+		if cf.isNative {
+			// native frames keep the function name in fp
 			continue
 		}
+		offset := uintptr(vm.stackOffsetFromToRaw(oldStackPtr, cf.fp))
+		cf.fp = vm.stackAddRaw(newStackPtr, offset)
+	}
 
+	// every open upvalue lives on the list of open upvalues exactly once,
+	// whether or not the closure that captured it is currently running
+	for upvalue := vm.openUpvalueHead; upvalue != nil; upvalue = upvalue.next {
 		offset := vm.stackOffsetFromTo(&vm.stack[0], upvalue.slot)
 		upvalue.slot = vm.stackAdd(&newStack[0], offset)
 	}
